@@ -160,7 +160,7 @@ func extraMods(eng *Engine, callee *ssa.Function, c *ssa.CallCommon, m *Modset) 
 	case "(*bytes.Buffer).Reset":
 		m.ghost["hashP"] = true
 		return true
-	case "(*bytes.Buffer).Bytes", "path/filepath.Join", "os.ReadDir", "os.ReadFile", "(*text/template.Template).Execute":
+	case "(*bytes.Buffer).Bytes", "path/filepath.Join", "os.ReadDir", "os.ReadFile", "(*text/template.Template).Execute", "bytes.NewReader", "archive/zip.NewReader":
 		return true
 	}
 	return false
@@ -207,6 +207,29 @@ func (fr *Frame) extraExternal(ins ssa.Instruction, fn *ssa.Function, c *ssa.Cal
 		sl := fx.s.define("filebytes", "Slice", fmt.Sprintf("(ite (fs_readable %s) (mkslice (obj %s) 0 %s %s) nilslice)", pth, ref, n, n))
 		fx.s.assume(st.guard, fmt.Sprintf("(= (bytes_of (obj %s)) (fs_content %s))", ref, pth))
 		return []Val{{t: sl}, {t: fx.errVal(st, "(fs_readable "+pth+")")}}, true
+	case "bytes.NewReader":
+		fx.trusted["bytes.NewReader(b): a fresh non-nil reader over b; b is not modified; never panics"] = true
+		ref := fx.allocRef(st, "0")
+		return []Val{{t: ref}}, true
+	case "archive/zip.NewReader":
+		fx.trusted["zip.NewReader(r, n): (nil, error) or (a fresh non-nil *zip.Reader whose File slice holds non-nil, pairwise distinct *zip.File entries, nil); the input is only read; never panics"] = true
+		res := fr.havocResults(c, st)
+		rd := res[0].t
+		fx.s.assume(st.guard, fmt.Sprintf("(= (= %s niliface) (not (= %s nilref)))", res[1].t, rd))
+		rt := c.Signature().Results().At(0).Type().Underlying().(*types.Pointer).Elem()
+		si := fx.tm.structInfo(rt)
+		key, srt := fx.tm.heapKey(rt)
+		hr := fx.heap(st, key, srt)
+		for _, f := range si.Fields {
+			if f.Name == "File" {
+				fs := fmt.Sprintf("(%s (select %s %s))", f.Sel, hr, rd)
+				et := f.Type.Underlying().(*types.Slice).Elem()
+				ekey, esrt := fx.tm.heapKey(et)
+				h := fx.heap(st, ekey, esrt)
+				fx.s.assume(st.guard, fmt.Sprintf("(=> (not (= %s nilref)) (forall ((k Int)) (! (=> (and (<= 0 k) (< k (slen %s))) (not (= (select %s (elemref %s k)) nilref))) :pattern ((elemref %s k)))))", rd, fs, h, fs, fs))
+			}
+		}
+		return res, true
 	case "os.ReadDir":
 		fx.trusted["os.ReadDir: returns (fresh slice of non-nil entries, error); never panics"] = true
 		res := fr.havocResults(c, st)
